@@ -48,6 +48,10 @@ def _synparam_at(
         # retrieve most recent value
         res = transform(value.peek())
 
+        # every selector of a synapse reads the same (only) observation
+        if selector.ndim == res.ndim + 1:
+            res = res.unsqueeze(-1).expand(*res.shape, selector.shape[-1])
+
     # delayed access
     else:
         # bound the selector
